@@ -169,7 +169,7 @@ func r09f(c *core.Ctx) {
 					}
 				}
 			case *ssa.Call:
-				if nm := core.CallName(x); nm == "min" || nm == "max" {
+				if b, isB := x.Call.Value.(*ssa.Builtin); isB && (b.Name() == "min" || b.Name() == "max") {
 					hasLen := false
 					for _, a := range x.Call.Args {
 						if isDataLen(a) {
